@@ -390,6 +390,7 @@ _mult_contract('scalar-amplitude', 1, 'scalar', 'array', 'array')
 _mult_contract('scalar-opd', 1, 'array', 'scalar', 'array')
 _mult_contract('two-fields', 2, 'array', 'array', 'array')
 _mult_contract('two-segments', 1, 'array', 'array', 'array', nseg=2)
+_mult_contract('two-segments-scalars', 1, 'scalar', 'scalar', 'array', nseg=2)
 _mult_contract('default-plane', 1, 'scalar', 'scalar', 'scalar')
 _mult_contract('default-plane-default-wavefront', 1, 'scalar', 'scalar', 'scalar', scalar_field=True)
 _mult_contract('pupil', 1, 'array', 'array', 'array', cls='lentil.plane.Pupil', ptype='pupil')
